@@ -1,6 +1,8 @@
 package pqlref
 
 import (
+	"strings"
+
 	"verif/harness/val"
 )
 
@@ -199,6 +201,57 @@ func evalCall(e *E, c *EvalCtx) val.V {
 		}
 		return val.Aggregate(e.Op, vals)
 	}
+	// any other function is passed through by name: it means whatever the
+	// engine's function of that name means, including the aggregates, whose
+	// names the engine matches case-insensitively
+	if lname := strings.ToLower(e.Op); val.IsAggregate(lname) {
+		rows := c.group()
+		evalOn := func(r Row) val.V { return Eval(e.Kids[0], &EvalCtx{Row: r, Bind: c.Bind}) }
+		switch lname {
+		case "count":
+			if n == 0 {
+				return val.I(int64(len(rows)))
+			}
+			if n != 1 {
+				return val.ERR
+			}
+			cnt := int64(0)
+			for _, r := range rows {
+				v := evalOn(r)
+				if v.K == val.Err {
+					return val.ERR
+				}
+				if v.K != val.Null {
+					cnt++
+				}
+			}
+			return val.I(cnt)
+		case "countif":
+			if n != 1 {
+				return val.ERR
+			}
+			cnt := int64(0)
+			for _, r := range rows {
+				v := evalOn(r)
+				if v.K == val.Err || (v.K != val.Bool && v.K != val.Null) {
+					return val.ERR
+				}
+				if v.K == val.Bool && v.B {
+					cnt++
+				}
+			}
+			return val.I(cnt)
+		default:
+			if n != 1 {
+				return val.ERR
+			}
+			var vals []val.V
+			for _, r := range rows {
+				vals = append(vals, evalOn(r))
+			}
+			return val.Aggregate(lname, vals)
+		}
+	}
 	var args []val.V
 	for i := 0; i < n; i++ {
 		args = append(args, arg(i))
@@ -211,7 +264,7 @@ func HasAggregate(e *E) bool {
 	if e == nil {
 		return false
 	}
-	if e.K == "call" && val.IsAggregate(e.Op) {
+	if e.K == "call" && val.IsAggregate(strings.ToLower(e.Op)) {
 		return true
 	}
 	for _, k := range e.Kids {
